@@ -2,6 +2,7 @@ package main
 
 import (
 	"fmt"
+	"reflect"
 	"go/token"
 	"go/types"
 	"sort"
@@ -17,14 +18,15 @@ const cdrTypePath = modPath + "/cdr/cdrType"
 func init() { register("C02", "other", checkC02) }
 
 func checkC02(c *Ctx, r *Report) {
-	r.Explanation = "Structural clauses decided on go/ssa: (R1) the record that update/release hand to UpdateCDR/CloseCDR/dumpCdrFile is selected by the request's session reference - every look-up of subscriber state it depends on is keyed by that parameter (or it is a record created in the same call from such a one) and it never depends on an element of the subscriber-wide record list; (R2) exactly once: each of create/update/release calls UpdateCDR exactly once on every success path and not in a loop, UpdateCDR appends MultiUnitUsageToCdr(request.MultipleUnitUsage) exactly once, and the two conversion loops append exactly one element per iteration (order and 1:1 by loop shape); (R3) field provenance: each CDR member listed in the table takes its value from the corresponding request member and from no other member of the table; (R4) cause-for-closing is the constant 1 on the partial edge and 0 otherwise; (R5) every BCD octet of the opening timestamp has both nibbles in 0..9 for all time.Time field ranges and all zone offsets, and the sign octet is '+'/'-' selected by the sign of the offset (interval analysis with a nibble transfer function); (R6) wherever a new record is published under a session reference (the split of an over-long record, the re-open after a partial record) its usage list is a fresh empty list at that point - not a re-slice or shallow copy of the closed record's list (shared backing array: later appends overwrite recorded usage) and not an un-emptied deep copy (usage repeated)."
-	r.Undecided = []string{"content equality of decoded records (values are not compared)", "fidelity of the JSON deep copy of the split path for the members other than the usage list", "which instant the timestamp denotes (only the BCD well-formedness and sign are decided)"}
+	r.Explanation = "Structural clauses decided on go/ssa: (R1) the record that update/release hand to UpdateCDR/CloseCDR/dumpCdrFile is selected by the request's session reference - every look-up of subscriber state it depends on is keyed by that parameter (or it is a record created in the same call from such a one) and it never depends on an element of the subscriber-wide record list; (R2) exactly once: each of create/update/release calls UpdateCDR exactly once on every success path and not in a loop, UpdateCDR appends MultiUnitUsageToCdr(request.MultipleUnitUsage) exactly once, and the two conversion loops append exactly one element per iteration (order and 1:1 by loop shape); (R3) field provenance: each CDR member listed in the table takes its value from the corresponding request member and from no other member of the table; (R4) cause-for-closing is the constant 1 on the partial edge and 0 otherwise; (R5) every BCD octet of the opening timestamp has both nibbles in 0..9 for all time.Time field ranges and all zone offsets, and the sign octet is '+'/'-' selected by the sign of the offset (interval analysis with a nibble transfer function); (R6) wherever a new record is published under a session reference (the split of an over-long record, the re-open after a partial record) its usage list is a fresh empty list at that point - not a re-slice or shallow copy of the closed record's list (shared backing array: later appends overwrite recorded usage) and not an un-emptied deep copy (usage repeated); (R7) the JSON deep copy made at the split preserves every member: for every type reachable from CHFRecord custom JSON/text marshalling is symmetric, members are exported, uniquely named and of marshalable kinds (exhaustive over the type graph)."
+	r.Undecided = []string{"content equality of decoded records (values are not compared)", "value fidelity of encoding/json itself for the built-in kinds (trusted)", "which instant the timestamp denotes (only the BCD well-formedness and sign are decided)"}
 	r.Assumptions = append(r.Assumptions, "time.Time accessors return values in their documented ranges; |zone offset| < 24 h; years 0..9999")
 	r.rule("C02.R1", "the record used by update/release is selected by the request's session reference only", 4)
 	r.rule("C02.R2", "usage is appended exactly once per request and per reported container", 6)
 	r.rule("C02.R3", "CDR members take their value from the corresponding request member", 10)
 	r.rule("C02.R4", "cause for record closing: 1 on the partial edge, 0 otherwise", 2)
 	r.rule("C02.R5", "opening timestamp: BCD nibbles within 0..9 and sign octet selected by the offset's sign", 9)
+	r.rule("C02.R7", "every type reachable from the record round-trips through the JSON deep copy of the split (exhaustive over the type graph)", 40)
 	r.rule("C02.R6", "a record that continues a session starts with a fresh empty usage list (no shared backing array, no repeated containers)", 2)
 
 	c02RecordSelection(c, r)
@@ -33,6 +35,7 @@ func checkC02(c *Ctx, r *Report) {
 	c02Cause(c, r)
 	c02Timestamp(c, r)
 	c02SplitFresh(c, r, "C02.R6")
+	c02DeepCopyFidelity(c, r, "C02.R7")
 }
 
 // ---- R1
@@ -799,4 +802,105 @@ func isCdrMapValue(m ssa.Value) bool {
 	}
 	_, ok = isFieldAddr(ld.X, ctxPath, "ChfUe", "Cdr")
 	return ok
+}
+
+// ---- R7: the deep copy made at the record split preserves every member ----
+//
+// ChargingDataUpdate clones the record through json.Marshal / json.Unmarshal.
+// The clone is faithful only if every type reachable from cdrType.CHFRecord
+// round-trips through encoding/json.  Decided on the types (exhaustive over the
+// type graph): custom marshalling is symmetric (MarshalJSON <=> UnmarshalJSON,
+// MarshalText <=> UnmarshalText - a one-sided MarshalText on an octet-string
+// type makes json write text and read base64), every struct member is exported
+// and not excluded by a `json:"-"` tag, member names are unique up to case
+// within a struct, and no member is an interface, function or channel.
+func c02DeepCopyFidelity(c *Ctx, r *Report, rule string) {
+	root := c.namedType("cdr/cdrType", "CHFRecord")
+	seen := map[types.Type]bool{}
+	nTypes := 0
+	var walk func(t types.Type, via string)
+	hasMethod := func(t types.Type, name string) bool {
+		for _, tt := range []types.Type{t, types.NewPointer(t)} {
+			ms := types.NewMethodSet(tt)
+			for i := 0; i < ms.Len(); i++ {
+				if ms.At(i).Obj().Name() == name {
+					return true
+				}
+			}
+		}
+		return false
+	}
+	walk = func(t types.Type, via string) {
+		if seen[t] {
+			return
+		}
+		seen[t] = true
+		if n, ok := t.(*types.Named); ok {
+			nTypes++
+			name := n.Obj().Name()
+			if n.Obj().Pkg() != nil {
+				name = n.Obj().Pkg().Name() + "." + name
+			}
+			var bad []string
+			mj, uj := hasMethod(n, "MarshalJSON"), hasMethod(n, "UnmarshalJSON")
+			mt, ut := hasMethod(n, "MarshalText"), hasMethod(n, "UnmarshalText")
+			if mj != uj {
+				bad = append(bad, fmt.Sprintf("MarshalJSON=%v but UnmarshalJSON=%v", mj, uj))
+			}
+			if mt != ut && !(mj && uj) {
+				bad = append(bad, fmt.Sprintf("MarshalText=%v but UnmarshalText=%v: encoding/json writes the type with the custom method and reads it back with its built-in rule (or the reverse)", mt, ut))
+			}
+			if st, ok := n.Underlying().(*types.Struct); ok && !(mj && uj) {
+				names := map[string]string{}
+				for i := 0; i < st.NumFields(); i++ {
+					f := st.Field(i)
+					tag := reflect.StructTag(st.Tag(i)).Get("json")
+					jn := strings.Split(tag, ",")[0]
+					if !f.Exported() {
+						bad = append(bad, "member "+f.Name()+" is unexported: it is not copied")
+						continue
+					}
+					if jn == "-" {
+						bad = append(bad, "member "+f.Name()+" is excluded by its json tag: it is not copied")
+						continue
+					}
+					if jn == "" {
+						jn = f.Name()
+					}
+					if prev, dup := names[strings.ToLower(jn)]; dup {
+						bad = append(bad, "members "+prev+" and "+f.Name()+" share one JSON name up to case")
+					}
+					names[strings.ToLower(jn)] = f.Name()
+					switch f.Type().Underlying().(type) {
+					case *types.Interface:
+						bad = append(bad, "member "+f.Name()+" is an interface: the copy holds generic maps instead of the original type")
+					case *types.Signature, *types.Chan:
+						bad = append(bad, "member "+f.Name()+" cannot be marshalled")
+					}
+				}
+			}
+			pos := c.rel(n.Obj().Pos())
+			r.check(len(bad) == 0, rule, "type "+name, pos, "round-trips through encoding/json (symmetric marshalling, all members exported and named uniquely)", "the JSON deep copy made when a record is split does not preserve "+name+" ("+via+"): "+strings.Join(bad, "; ")+" - the record that continues the session loses or alters these members")
+			if mj && uj {
+				return // custom symmetric marshalling: members are the type's own business
+			}
+		}
+		switch u := t.Underlying().(type) {
+		case *types.Struct:
+			for i := 0; i < u.NumFields(); i++ {
+				walk(u.Field(i).Type(), via+"."+u.Field(i).Name())
+			}
+		case *types.Pointer:
+			walk(u.Elem(), via)
+		case *types.Slice:
+			walk(u.Elem(), via+"[]")
+		case *types.Array:
+			walk(u.Elem(), via+"[]")
+		case *types.Map:
+			walk(u.Key(), via+"(key)")
+			walk(u.Elem(), via+"[]")
+		}
+	}
+	walk(root, "CHFRecord")
+	r.count("record_types_in_copy_graph", nTypes)
 }
